@@ -217,7 +217,9 @@ def make_sets(scn):
         if scn.get('half'):
             s = s + 0.5
         p = pt[:n].copy()
-        if j == 0:
+        if scn.get('const_word') is not None:
+            p[:, 3] = scn['const_word']      # a constant metadata byte (padding): undefined statistics (NaN) for that word in CPA/DPA
+        if j == 0 and not (scn.get('const_word') is not None and scn.get('classes') is not None):
             p[0, :] = 255        # first batch decisive for automatic class sets (HW max) - DESIGN 4.3
         out.append((s, p))
     return out
@@ -317,6 +319,9 @@ def gen_base(prop, seed, tier):
            'classes': None, 'step': None}
     if kind in ('anova', 'nicv', 'snr', 'mia'):
         scn['classes'] = r.choice([None, list(range(9)), list(range(9)), [8, 7, 6, 5, 4, 3, 2, 1, 0], [0, 2, 4, 6, 8, 1], list(range(12))])
+    cw = rng.stream(seed, 'constword')
+    if cw.random() < 0.15 and (kind in ('cpa', 'dpa') or scn['classes'] is not None):
+        scn['const_word'] = cw.choice([0, 7, 255])
     if kind == 'mia':
         scn['mia'] = {'lo': 0, 'hi': r.choice([16, 64, 600]), 'bins': r.choice([3, 6])}
         mr = rng.stream(seed, 'miawide')
